@@ -36,6 +36,9 @@ Lemma ob_localhost_strips_zone : localhost_strips_zone = true.
 Proof. vm_compute. reflexivity. Qed.
 Lemma ob_localhost_maps_idna : localhost_maps_idna = true /\ deny_matches_ascii_form = true.
 Proof. vm_compute. split; reflexivity. Qed.
+(* ... and the name without the trailing dot of a fully qualified spelling ("localhost.", "evil.test.") *)
+Lemma ob_trailing_dot : localhost_strips_dot = true /\ deny_matches_undotted_form = true.
+Proof. vm_compute. split; reflexivity. Qed.
 Lemma ob_seed_has_localhost : existsb (str_eqb (b "localhost")) localhost_seed = true.
 Proof. vm_compute. reflexivity. Qed.
 
